@@ -55,6 +55,8 @@ pub fn denom(d: u8) -> &'static str {
     match d {
         0 => "usei",
         1 => "uusd",
+        // the empty denomination (an instantiate message may carry it; no coin has it)
+        3 => "",
         // a third denomination in the spelling of an IBC voucher: bank denoms are case sensitive
         _ => "ibc/27394FB092D2ECCD56123C74F36E4C1F926001CEADA9CA97EA622B25F41E5EB2",
     }
@@ -63,6 +65,7 @@ pub fn denom_id(s: &str) -> u8 {
     match s {
         "usei" => 0,
         "uusd" => 1,
+        "" => 3,
         "ibc/27394FB092D2ECCD56123C74F36E4C1F926001CEADA9CA97EA622B25F41E5EB2" => 2,
         // any other spelling is another denomination
         _ => 9,
